@@ -100,10 +100,19 @@ class Case:
             import copy as _copy
             from funtracks.features import FeatureDict
             f0 = tracks.features
-            fd = FeatureDict(features={k: dict(v) for k, v in f0.items()}, time_key=f0.time_key,
+            feats = {k: dict(v) for k, v in f0.items()}
+            lin_key = f0.lineage_key
+            if sp.get("prebuilt_no_lineage") and lin_key is not None:
+                # a registry without the lineage feature (what older project files load as)
+                feats.pop(lin_key, None)
+                lin_key = None
+            fd = FeatureDict(features=feats, time_key=f0.time_key,
                              position_key=_copy.copy(f0.position_key), tracklet_key=f0.tracklet_key,
-                             lineage_key=f0.lineage_key)
+                             lineage_key=lin_key)
             g2 = _copy.deepcopy(tracks.graph)
+            if lin_key is None and f0.lineage_key is not None:
+                for _n in g2.nodes:
+                    g2.nodes[_n].pop(f0.lineage_key, None)   # such files carry no lineage attribute
             seg2 = None if tracks.segmentation is None else tracks.segmentation.copy()
             tracks = SolutionTracks(g2, segmentation=seg2, scale=self.scale, ndim=self.ndim, features=fd)
         tracks._verif_id_base = sp.get("id_base", 0)  # harness-side hint for fresh id choices
@@ -384,6 +393,10 @@ def impl_state(case: Case, tracks: SolutionTracks, refresh_count: int, payload) 
     st["payload"] = payload
     feats = tracks.features
     st["lin_on"] = "lineage_id" in feats and "lineage_id" in ta.features
+    # a registry built WITHOUT the lineage feature (FeatureDict.lineage_key is None): the model has
+    # no such flavour of "lineage off" — it keeps writing the (unregistered) attribute on new nodes
+    # as the code does after disable_features. Lineage fields are not compared in that state.
+    st["lin_key_none"] = getattr(feats, "lineage_key", "x") is None
     st["reg_node"] = sorted(case.namekey.get(k, -1) for k, f in feats.items()
                             if f["feature_type"] == "node" and k not in ("time", "track_id", "lineage_id"))
     st["reg_edge"] = sorted(case.namekey.get(k, -1) for k, f in feats.items() if f["feature_type"] == "edge")
@@ -458,7 +471,7 @@ def compare(case: Case, model: dict, impl: dict) -> list[tuple[str, str]]:
             diffs.append(("time", f"node {n} time model {a['time']} impl {b['time']}"))
         if a["tid"] != b["tid"]:
             diffs.append(("tid", f"node {n} track id model {a['tid']} impl {b['tid']}"))
-        if a["lin"] != b["lin"]:
+        if a["lin"] != b["lin"] and not impl.get("lin_key_none"):
             diffs.append(("lin", f"node {n} lineage model {a['lin']} impl {b['lin']}"))
         ao = {k: v for k, v in a["other"].items() if v != ("n",)}
         bo = b["other"]
@@ -509,10 +522,15 @@ def compare(case: Case, model: dict, impl: dict) -> list[tuple[str, str]]:
     if model["seg"] != impl["seg"]:
         diffs.append(("seg", "segmentation arrays differ"))
     for fld in ("t2n", "l2n"):
+        if fld == "l2n" and impl.get("lin_key_none"):
+            continue
         a = {k: sorted(v) for k, v in model[fld].items()}
         if a != impl[fld]:
             diffs.append((fld, f"{fld} model {a} impl {impl[fld]}"))
-    if tuple(model["next"]) != tuple(impl["next"]):
+    if impl.get("lin_key_none"):
+        if model["next"][0] != impl["next"][0]:
+            diffs.append(("next", f"next track id model {model['next'][0]} impl {impl['next'][0]}"))
+    elif tuple(model["next"]) != tuple(impl["next"]):
         diffs.append(("next", f"next ids model {model['next']} impl {impl['next']}"))
     if model["counter"] != impl["counter"]:
         diffs.append(("counter", f"node id counter model {model['counter']} impl {impl['counter']}"))
